@@ -119,12 +119,17 @@ def run(ctx):
     ctx.cov["checker_cmd"] = "coqc -Q coq/Values BWValues coq/Values/Props/C05.v ; work/bin/h_values -mode values|graph ; model evaluated by coqc (vm_compute) on the generated cases"
     thorough = ctx.tier == "thorough"
     seed = str(ctx.seed)
-    rows = vc.hrows(["-mode", "values", "-seed", seed, "-n", "30000" if thorough else "1500"])
-    rows += vc.hrows(["-mode", "graph", "-seed", seed, "-n", "1500" if thorough else "60"])
+    rows = vc.hrows(["-mode", "values", "-seed", seed, "-n", "30000" if thorough else "1000"])
+    rows += vc.hrows(["-mode", "graph", "-seed", seed, "-n", "1500" if thorough else "40"])
     bad, dom, ill = vc.model_eval(ctx, "cases_c05", rows)
     for i in bad[:5]:
         ctx.violation({"kind": "model-vs-implementation", "case": vc.strip(rows[i]),
                        "explain": "String()/Parse()/WriteGraph/ReadIntoGraph of the Go code and the Gallina model (evaluated in Coq) disagree"})
+    lawcnt, lawfails = vc.check_laws(rows)
+    for f in lawfails[:3]:
+        ctx.violation({"kind": "oracle-law-fails", "explain": "a law of the Go library assumed by the C05 theorems (oracle_laws) does not hold on this sample",
+                       "failing_input": f})
+    ctx.cov["oracle_law_samples"] = lawcnt
     domset = set(dom)
     findings = vcheck.known_findings("C05")
     unexplained, explained, in_dom_fail = [], {}, []
